@@ -40,7 +40,8 @@ pub struct BackupMetadata {
     /// Highest numeric WAL file id included in this backup, if known.
     #[serde(default, skip_serializing_if = "Option::is_none")]
     pub max_wal_file_id: Option<u64>,
-    /// Snapshot filename included in this backup, if any.
+    /// Snapshot filename included in this backup, if any (an incremental ships a snapshot
+    /// only when no backup of its parent chain already provides it).
     #[serde(default, skip_serializing_if = "Option::is_none")]
     pub snapshot_file: Option<String>,
 }
@@ -844,6 +845,7 @@ impl BackupManager {
         let manifest_layout = read_manifest_layout(&manifest_path)?;
         let mut entries = Vec::new();
         let mut max_wal_file_id: Option<u64> = None;
+        let mut snapshot_file = None;
 
         let all_wal_segments = list_wal_segments_in_dir(&self.data_dir)?;
         let modified_since_parent = |path: &Path| -> bool {
@@ -897,6 +899,28 @@ impl BackupManager {
                     a_id.cmp(&b_id).then_with(|| a.cmp(b))
                 });
                 manifest.wal_segments.dedup();
+
+                // The shipped MANIFEST must not point at a snapshot that no archive of the
+                // chain contains (a snapshot taken since the parent compacts the WAL it
+                // covers): ship it unless the parent chain already provides it.
+                if let Some(snapshot_name) = &manifest.latest_snapshot {
+                    let chain_snapshot = self.effective_chain_snapshot(&parent_metadata)?;
+                    if chain_snapshot.as_ref() != Some(snapshot_name) {
+                        let snapshot_path = self.data_dir.join(snapshot_name);
+                        anyhow::ensure!(
+                            snapshot_path.exists(),
+                            "MANIFEST references missing snapshot '{}' in {}",
+                            snapshot_name,
+                            self.data_dir.display()
+                        );
+                        snapshot_file = Some(snapshot_name.clone());
+                        entries.push(ArchiveEntry::from_path(
+                            snapshot_name.clone(),
+                            snapshot_path,
+                        ));
+                    }
+                }
+
                 let manifest_bytes =
                     serde_json::to_vec_pretty(&manifest).context("Failed to serialize MANIFEST")?;
                 entries.push(ArchiveEntry::from_bytes("MANIFEST", manifest_bytes));
@@ -963,7 +987,7 @@ impl BackupManager {
             parent_id: Some(parent_id),
             description,
             max_wal_file_id,
-            snapshot_file: None,
+            snapshot_file,
         };
 
         // Save metadata
@@ -977,6 +1001,36 @@ impl BackupManager {
         );
 
         Ok(metadata)
+    }
+
+    /// Snapshot the restore chain ending in `parent` already provides: the `snapshot_file` of
+    /// the nearest record that has one, starting at `parent` and following `parent_id` links
+    /// up to the full backup (the walk `restore_from_backup_with_options` performs).
+    fn effective_chain_snapshot(&self, parent: &BackupMetadata) -> Result<Option<String>> {
+        let mut current = parent.clone();
+        // Ids already followed: a parent_id cycle must end the walk, not loop forever.
+        let mut visited = vec![current.id];
+
+        while current.snapshot_file.is_none() && current.backup_type != BackupType::Full {
+            let Some(ancestor_id) = current.parent_id else {
+                break;
+            };
+            if visited.contains(&ancestor_id) {
+                return Err(anyhow!(
+                    "Backup chain of {} revisits {} (cycle in parent_id)",
+                    parent.id,
+                    ancestor_id
+                ));
+            }
+            visited.push(ancestor_id);
+            let ancestor_path = self.backup_dir.join(format!("backup_{}.json", ancestor_id));
+            if !ancestor_path.exists() {
+                return Err(anyhow!("Parent backup {} not found", ancestor_id));
+            }
+            current = serde_json::from_str(&fs::read_to_string(ancestor_path)?)?;
+        }
+
+        Ok(current.snapshot_file)
     }
 
     /// List all backups sorted by timestamp (newest first)
